@@ -328,3 +328,28 @@ PROPS["C05"] = dict(
         technique="fault enumeration + property-based fault programs (rapid) against a loopback TLS simulator",
     ),
 )
+
+PROPS["C10"] = dict(
+    pkg="c10",
+    level="exploration",
+    rule=("page chains of 1..9 pages (Collection / OrderedCollection, 0..6 tagged items per page, empty pages anywhere incl. 4+ "
+          "non-consecutive and >= 4 consecutive, items as list / bare value / key absent) whose edges are embedded without id, embedded "
+          "with a same-host id, remote by URL, stub, or at the end: none, cycle back to any remote page, 404, wrong JSON type, "
+          "non-collection; root served by the simulator or built in memory. Request programs: Harvest(n0, start) with start 0..9 then up "
+          "to 11 calls feeding back (continuation, offset), n in 0..9. Oracle: a reference walk over the generated chain — every call "
+          "delivers exactly the next items in order, is cut short only by a broken edge or a 4th consecutive empty page (then exactly "
+          "one error item and an empty continuation), the continuation offset matches, exhaustion gives the nil continuation, and each "
+          "call requests at most 4(n+1)+4 remote pages. Non-trivial: >= 2 pages and a call that crosses a page boundary while "
+          "delivering. Distinct = distinct (chain, program)."),
+    units=[
+        rapid("Prop", "TestProp", 8000, 400000, config_toml=_NET + "cache_size = 16\n"),
+    ],
+    manifest=dict(
+        text=("Stateful property-based testing: generated page chains (in memory and served by the loopback simulator) are paged with "
+              "generated request programs and compared call by call with a reference walk; the simulator's request log bounds the "
+              "pages visited. Sampled."),
+        design_ref="DESIGN.md §3 C10",
+        note="Trusted: the reference walk in harness/c10 (a loop over the generated page list) and the simulator.",
+        technique="model-based property testing (rapid) of paging histories against a reference sequence",
+    ),
+)
